@@ -246,6 +246,8 @@ def py_leaves(e: Any, defs: dict[str, list[Any]], depth: int = 6, _seen: set | N
                     _seen.discard(pref)
                     if pref != ch:
                         out.add("." + ch[len(pref) + 1:])
+                    if parts[0] == "self":
+                        out.add(ch)  # object fields are storage as well as definitions
                 else:
                     out.add(ch)
         elif isinstance(n, ast.Name):
